@@ -166,6 +166,31 @@ func (n *c02Node) evalTree(o *c02Oracle, iv int64, fv float64) (isF bool, i int6
 }
 
 // collectConst records oracle entries for every constant sub-tree application (what folding needs).
+func (n *c02Node) isConst() bool {
+	switch n.kind {
+	case 'i', 'f':
+		return true
+	case 'v':
+		return false
+	}
+	return n.a.isConst() && n.b.isConst()
+}
+
+// hasConstZeroDivisor: some division or modulus has a constant right operand that evaluates to
+// zero (or cannot be evaluated because of a zero divisor further inside).
+func (n *c02Node) hasConstZeroDivisor() bool {
+	if n.kind != 'b' {
+		return false
+	}
+	if (n.op == "/" || n.op == "%") && n.b.isConst() {
+		isF, i, f, ok := n.b.evalTree(&c02Oracle{entries: map[string]bool{}}, 0, 0)
+		if !ok || (!isF && i == 0) || (isF && f == 0) {
+			return true
+		}
+	}
+	return n.a.hasConstZeroDivisor() || n.b.hasConstZeroDivisor()
+}
+
 func (n *c02Node) collectConst(o *c02Oracle) {
 	if n.kind != 'b' {
 		return
@@ -295,6 +320,10 @@ func c02Run(r *runCtx, id string, f []string) {
 			} else {
 				r.ok(id) // rejected either way for another reason (e.g. a type error)
 			}
+		} else if !on.ok && !tree.hasConstZeroDivisor() {
+			// the message says zero divisor, but no division or modulus in the expression has a
+			// constant right operand whose value is zero
+			r.fail(id, "opt-rejects-nonzero-divisor", "program `%s` is rejected with optimisation for a zero divisor (%s), but no constant divisor in it is zero", tree.text(), firstLine(on.errMsg))
 		} else {
 			r.ok(id)
 		}
@@ -319,7 +348,7 @@ func init() {
 	props["C02"] = &propImpl{
 		gen: func(g *genCtx) {
 			ints := []int64{0, 1, -1, 2, 7, -7, 3, 10, math.MaxInt64, math.MinInt64}
-			floats := []float64{0.0, 1.0, -1.0, 2.0, 0.5, -2.5, 7.0, 3.0}
+			floats := []float64{0.0, 1.0, -1.0, 2.0, 0.5, -2.5, 7.0, 3.0, 5e-10, -2.5e-10, 1e-300, 5e-324, 1e300, 0.1, 0.2, 0.3}
 			ops := []string{"+", "-", "*", "/", "%", "^"}
 			lines := "3_0.5|0_0.0|-7_2.0|10_-2.5"
 			emit := func(n *c02Node) {
@@ -351,8 +380,15 @@ func init() {
 			for _, op := range ops {
 				for _, af := range []bool{false, true} {
 					for _, bf := range []bool{false, true} {
-						for a := 0; a < 8; a++ {
-							for b := 0; b < 8; b++ {
+						na, nb := len(ints), len(ints)
+						if af {
+							na = len(floats)
+						}
+						if bf {
+							nb = len(floats)
+						}
+						for a := 0; a < na; a++ {
+							for b := 0; b < nb; b++ {
 								emit(&c02Node{kind: 'b', op: op, a: lit(af, a), b: lit(bf, b)})
 							}
 						}
@@ -371,9 +407,9 @@ func init() {
 					case 0:
 						return &c02Node{kind: 'v', v: 1 + g.r.intn(2)}
 					case 1, 2:
-						return lit(true, g.r.intn(8))
+						return lit(true, g.r.intn(len(floats)))
 					default:
-						return lit(false, g.r.intn(8))
+						return lit(false, g.r.intn(len(ints)))
 					}
 				}
 				return &c02Node{kind: 'b', op: ops[g.r.intn(len(ops))], a: gen(d - 1), b: gen(d - 1)}
